@@ -20,7 +20,7 @@ CLAIMED = {
              '(product over relations; mandatory/optional/alternative/or/mutex cases by fold induction), count_configurations and execute store it; '
              'frame clauses. Bounded: the helper count_cardinality_group ([a..b] groups: list indexed by a symbolic range) is assumed by contract and '
              'checked natively; the bridge N(root) == number of valid configurations and the upper bound with constraints are checked against brute force.',
-        note=BASE + 'Contract of count_cardinality_group assumed (bounded check). Counting bridge validated exhaustively to 4 (quick) / 6 (thorough) features.'),
+        note=BASE + 'Contract of count_cardinality_group assumed (bounded check). Counting bridge validated exhaustively to 4 (quick) / 6 (thorough) features. Known finding C13_unbounded_group: groups with card_max == -1 (UVL [a..*]) are outside the well-formedness the proofs assume and fail natively (estimate 0).'),
     'C14': dict(category='other', design_ref='DESIGN.md section 4 C14, section 9',
         text='Decided deductively for all inputs: every feature returned by get_core_features is core by the tree (the root, or a member of a relation '
              'that forces all its members whose owner is core) -- loop invariant over the two work lists, all definedness obligations of the loop; the '
@@ -51,7 +51,7 @@ CLAIMED = {
              '(7 domain shapes) against its postcondition.',
         note=BASE + 'Reflection / dynamic dispatch in Metrics.execute resolved statically (listed). Unknown library calls assumed not to write their arguments. GenerateRandomAttribute is bounded only.'),
     'C20': dict(category='other', design_ref='DESIGN.md section 4 C20, section 9',
-        text='Proved: Feature equality is name equality, reflexive, symmetric, consistent with hash and order; purity of all eq/hash/lt methods. Relation, '
+        text='Proved: Feature equality is name equality, reflexive, symmetric, consistent with hash and order; equal relations have the same stored cardinality (Relation.__eq__, sorted() as an opaque function); purity of all eq/hash/lt methods. The other laws of Relation, '
              'Constraint and FeatureModel equality (sorted(), frozenset, recursive str) are bounded: permuted rebuilt copies, all element pairs, every '
              'single-point edit, hash-then-edit sequences, hostile names.',
         note=BASE + 'hash() uninterpreted. Relation / Constraint / FeatureModel laws are bounded only.'),
@@ -115,11 +115,11 @@ CLAIMED = {
         text='Deductive part: purity of both writers; in the propositional export each relation gets the formula of its own class (get_relation_formula against the C03 classes, through the contracts of the six formula functions), the mandatory / optional / or formulas are the documented ones; the SPLOT identifier quoting (plain exactly when the name is letters, digits, _); the CNF chain the SPLOT export relies on (simplify_formula / propagate_negation / to_cnf: equivalence and '
              'normal forms, proved in C18 on the dependency source). Bounded: both exports interpreted by independent interpreters of SXFM and of the '
              'propositional syntax over all 2^n selections against brute-force valid configurations (all trees <= 4 features, special families, random).',
-        note=BASE + 'Known findings C18_dep_simplify (XOR / EQUIVALENCE clauses), C10_pl_names. The alternative / mutex / cardinality formulas are outside the verifier (join over filtered comprehensions, itertools): their meaning is decided natively by an independent evaluator over all selections (bounded).'),
+        note=BASE + 'Known findings C18_dep_simplify (XOR / EQUIVALENCE clauses), C10_pl_names, C13_unbounded_group (card_max == -1). The alternative / mutex / cardinality formulas are outside the verifier (join over filtered comprehensions, itertools): their meaning is decided natively by an independent evaluator over all selections (bounded).'),
     'C11': dict(category='other', design_ref='DESIGN.md section 4 C11, section 9',
         text='Deductive part: parse_group_type writes, for a feature whose children form one group, the keyword whose Clafer meaning is the group cardinality (xor = exactly one, or = at least one, mux = at most one, a..b) and none for solitary children; the identifier written for a name is a function of the name (plain exactly when it is letters, digits, _; quoted otherwise); the declared attribute type follows the Python type of the default value (bool before int); writer purity. Bounded: the export parsed by an independent interpreter of the emitted Clafer subset (xor / or / mux / a..b, ?, '
              'top-level constraints) over all 2^n selections; identifier consistency between declaration and use of features and attributes.',
-        note=BASE + 'Known finding C11_opword_names. The text of the export as a whole (indentation, constraints, attributes) is bounded only.'),
+        note=BASE + 'Known findings C11_opword_names, C13_unbounded_group (card_max == -1 written as 1..-1). The text of the export as a whole (indentation, constraints, attributes) is bounded only.'),
     'C12': dict(category='other', design_ref='DESIGN.md section 4 C12, section 9',
         text='Decided deductively for all inputs by the effect analysis and call-site checks on the real source: each of the eight Writer.transform is pure '
              '(writes nothing reachable from the writer / model, no process-wide state), reaches no order- or process-dependent primitive (set iteration, hash, '
